@@ -147,7 +147,7 @@ func isCallNamed(v ssa.Value, name string) bool {
 func init() {
 	register(&propDef{
 		ID:       "C04",
-		Explain:  "Decided (structural necessary conditions): in Server.Subscribe the streaming registration (addSubscription -> match.AddQuery for every subscription with a path) precedes the start of the cache walk on every STREAM path; the remove function is only deferred (never run before the RPC ends); exactly one sync marker per walk, after the last Cache.Query and never on an error path, or exactly one before registration for updates_only; the walk and the feed enqueue leaf handles (not value snapshots) and the sender reads the value at send time; walk, feed and sender share one queue; the cache writes the tree before notifying the feed. Also decided (shared clauses): coalesce.next forgets the dequeued key (evaluated with 1 and 2 queued items), Target.Reset / Cache.Remove delete before they announce and announce what they deleted, removeQuery prunes a node only when it has neither clients nor children, every feed argument in Target.GnmiUpdate is the result of a gnmiUpdate/gnmiRemove call made earlier on the same path. Round-3 additions: the wake-up token and wait set of the coalescing queue (C11.token / wait-set, borrowed: a lost wake-up leaves the sender asleep with changes pending); a deleted leaf keeps its value for the handles still queued (who-may-write table of a node's content). Round-4 additions (borrowed from C03): the handle announced for a change is the tree's own node (never a detached copy), value.Equal never hides a change, the announced delete path names the removed leaf; every subscription of the request is walked before the marker (two-subscription replay).",
+		Explain:  "Decided (structural necessary conditions): in Server.Subscribe the streaming registration (addSubscription -> match.AddQuery for every subscription with a path) precedes the start of the cache walk on every STREAM path; the remove function is only deferred (never run before the RPC ends); exactly one sync marker per walk, after the last Cache.Query and never on an error path, or exactly one before registration for updates_only; the walk and the feed enqueue leaf handles (not value snapshots) and the sender reads the value at send time; walk, feed and sender share one queue; the cache writes the tree before notifying the feed. Also decided (shared clauses): coalesce.next forgets the dequeued key (evaluated with 1 and 2 queued items), Target.Reset / Cache.Remove delete before they announce and announce what they deleted, removeQuery prunes a node only when it has neither clients nor children, every feed argument in Target.GnmiUpdate is the result of a gnmiUpdate/gnmiRemove call made earlier on the same path. Round-3 additions: the wake-up token and wait set of the coalescing queue (C11.token / wait-set, borrowed: a lost wake-up leaves the sender asleep with changes pending); a deleted leaf keeps its value for the handles still queued (who-may-write table of a node's content). Round-4 additions (borrowed from C03): the handle announced for a change is the tree's own node (never a detached copy), value.Equal never hides a change, the announced delete path names the removed leaf; every subscription of the request is walked before the marker (two-subscription replay). Round-5 additions: the all-targets snapshot walk runs under Cache.mu (a Remove cannot be announced in the middle of a target's leaves); the send timer is disarmed whenever nothing is being sent (an idle healthy stream is not timed out); a coalesced response carries the whole cached notification.",
 		NotCover: "convergence of the subscriber's view under all interleavings, delete/re-add races, behaviour of ctree/match/coalesce themselves (C06, C10, C11)",
 		Run:      runC04,
 	})
